@@ -32,6 +32,7 @@ theorem declareClause_uinv (c : Clause) (s : Store) (tx : Tx) (e : Option Err) (
   | correct => exact h.same rfl
   | transition => exact h.same rfl
   | setRetention => exact h.same rfl
+  | merge => exact h.same rfl
 
 theorem PlanInv.declare {p : PS} (h : PlanInv [] p) (c : Clause) : PlanInv [] (p.andThen (declareClause c)) := by
   unfold PS.andThen
